@@ -664,8 +664,10 @@ def gen_case(rng: Any) -> Dict[str, Any]:
     if kinds["v"] in ("rowarray", "rowseries"):
         # one row whose cells are arrays: `row[col] *= m` writes into the array object, which the table already collected for a REQUESTED
         # column shares with the working row (what a collected table shares with the working table is C03's subject, not C07's)
+        # ... and for any column it is the GROUP that mutates a buffer object it was handed as a cell (like append on a list cell): mloda
+        # does not promise a deep copy of cells, so `row_aug` is only generated for scalar cells
         for g in groups:
-            if g["style"] == "row_aug" and g["src"] in request:
+            if g["style"] == "row_aug":
                 g["style"] = "row_update"
     need = needed_groups(c)
     # ---- payload objects
